@@ -286,6 +286,9 @@ def run_drivers(script_path, timeout=300):
     return mo, ro, me, re_
 
 
+DIFF_TAGS = {}   # case id -> tags of all differing output lines (filled by compare_outputs)
+
+
 def compare_outputs(mo, ro):
     mc, order = split_cases(mo)
     rc, order2 = split_cases(ro)
@@ -305,6 +308,14 @@ def compare_outputs(mo, ro):
             while k < len(a) and k < len(b) and a[k] == b[k]:
                 k += 1
             dis.append((cid, k, a[k] if k < len(a) else "<end>", b[k] if k < len(b) else "<end>"))
+            tags = set()
+            for i in range(k, max(len(a), len(b))):
+                x = a[i] if i < len(a) else "<end>"
+                y = b[i] if i < len(b) else "<end>"
+                if x != y:
+                    tags.add(x.split(" ", 1)[0])
+                    tags.add(y.split(" ", 1)[0])
+            DIFF_TAGS[cid] = tags
     return dis, rc, order2
 
 
@@ -335,6 +346,25 @@ def disagree(lines, workdir, tag="shrink"):
     mo, ro, me, re_ = run_drivers(p, timeout=120)
     d, _, _ = compare_outputs(mo, ro)
     return len(d) > 0, d
+
+
+def diff_lines(lines, workdir, tag="tags"):
+    """All differing output lines (model, implementation) of one script, compared position by position."""
+    p = os.path.join(workdir, tag + ".script")
+    write_script(p, [("x", lines)])
+    mo, ro, me, re_ = run_drivers(p, timeout=120)
+    a = mo.splitlines()
+    b = ro.splitlines()
+    out = []
+    for i in range(max(len(a), len(b))):
+        x = a[i] if i < len(a) else "<end>"
+        y = b[i] if i < len(b) else "<end>"
+        if x != y:
+            out.append((x, y))
+    return out
+
+
+PROP_TAGS = {"C14": ("TEXT", "ROWS", "BETWEEN"), "C18": ("LOG", "W")}
 
 
 def shrink(lines, workdir, pred, budget=150):
@@ -372,6 +402,75 @@ def shrink(lines, workdir, pred, budget=150):
     return cur
 
 
+# --------------------------------------------------------------------------- attribution
+def _classify(payload):
+    """What the last sequence of a P/W payload is: ('csi', marker, params, final) | ('esc', inter, final) |
+    ('c0', byte) | ('text',)."""
+    m = re.search(rb"\x1b\[([<=>?]?)([0-9;:]*)([ -/]*)([@-~])$", payload)
+    if m:
+        return ("csi", m.group(1).decode(), m.group(2).decode(), m.group(4).decode())
+    m = re.search(rb"\x1b([ -/]*)([0-~])$", payload)
+    if m:
+        return ("esc", m.group(1).decode(), m.group(2).decode("latin1"))
+    if payload and payload[-1] < 0x20:
+        return ("c0", payload[-1])
+    return ("text",)
+
+
+def attributable(prop, script, diffs):
+    """A model/implementation difference counts as a definite violation of `prop` (rather than as a
+    broken correspondence with no failing input) only when the property's theorems specify exactly
+    the result that differs: the last state operation of the shrunk script belongs to the class of
+    operations the property is about, or the differing output line is one of the property's own
+    observers.  Anything else keeps the no-failing-input-found suffix unless the oracle fails."""
+    last = None
+    for l in script:
+        f = l.split()
+        if f and f[0] in ("P", "W", "SIZE", "SB"):
+            last = f
+    tag = ""
+    if diffs:
+        d0 = diffs[0]
+        line = (d0[2] or d0[3] or "") if len(d0) > 3 else ""
+        tag = line.split(" ", 1)[0] if line else ""
+    cls = None
+    payload = b""
+    if last and last[0] in ("P", "W") and len(last) > 1:
+        try:
+            payload = bytes.fromhex(last[1])
+        except ValueError:
+            payload = b""
+        cls = _classify(payload)
+    def csi(finals, marker=None):
+        return cls is not None and cls[0] == "csi" and cls[3] in finals and (marker is None or cls[1] == marker)
+    if prop == "C05":
+        return cls == ("text",)
+    if prop == "C06":
+        return csi("ABCDEFGHdf`aer") or (csi("hl", "?") and "6" in cls[2].split(";")) or \
+            (cls is not None and cls[0] == "c0" and cls[1] in (8, 9, 10, 11, 12, 13)) or \
+            (cls is not None and cls[0] == "esc" and cls[1] == "" and cls[2] in "MDE")
+    if prop == "C07":
+        return csi("JKX")
+    if prop == "C08":
+        return csi("@PLMST")
+    if prop == "C09":
+        return csi("m", "") and tag in ("PEN", "GRID", "ROW", "SROW", "FMT", "OBS", "OATTR", "")
+    if prop == "C10":
+        return csi("hl", "?") or (cls is not None and cls[0] == "esc" and cls[1] == "" and cls[2] in "=>")
+    if prop == "C11":
+        return (cls is not None and cls[0] == "esc" and cls[1] == "" and cls[2] in "78") or csi("su", "") or \
+            (csi("hl", "?") and any(x in cls[2].split(";") for x in ("47", "1047", "1049")))
+    if prop == "C14":
+        return tag in ("TEXT", "ROWS", "BETWEEN")
+    if prop == "C16":
+        return (last is not None and last[0] == "SIZE") or csi("t")
+    if prop == "C17":
+        return b"\x1bc" in payload
+    if prop == "C18":
+        return tag in ("LOG", "W")
+    return False
+
+
 # --------------------------------------------------------------------------- main check
 
 def gen_family(fam, seed, count, workdir, nshards):
@@ -380,7 +479,7 @@ def gen_family(fam, seed, count, workdir, nshards):
     procs = []
     # the deterministic dispatch table is enumerated, not sampled: the quick tier takes a window
     # of it that moves with the seed, the thorough tier asks for more entries than it has (= all)
-    det = {"table": 39903, "exh": 1213568}   # sizes of the deterministic enumerations (gen prints them)
+    det = {"table": 40284, "exh": 1213568}   # sizes of the deterministic enumerations (gen prints them)
     base = (seed * count * 7919) % det[fam] if fam in det and count < det[fam] else 0
     if fam in det and base + count > det[fam]:
         base = det[fam] - count
@@ -748,10 +847,24 @@ def check_property(prop, tier, seed, replay=None):
         status = 1
         # pick the first few disagreements; shrink; ask the oracle about each
         seen = 0
+        # report first the disagreements in which one of the property's own observers differs
+        ptags0 = set(PROP_TAGS.get(prop, ()))
+        if ptags0:
+            disagreements.sort(key=lambda d: 0 if DIFF_TAGS.get(d[0], set()) & ptags0 else 1)
         for (cid, k, a, b) in disagreements[:3]:
             lines = all_scripts.get(cid, [])
             small = shrink(lines, work, lambda c: disagree(c, work)[0]) if lines else lines
             _, dd = disagree(small, work, "final") if small else (False, [])
+            ptags = PROP_TAGS.get(prop)
+            if ptags and lines:
+                # prefer a shrunk script on which one of the property's OWN observers differs
+                has = lambda c: any((x.split(" ", 1)[0] in ptags) or (y.split(" ", 1)[0] in ptags) for x, y in diff_lines(c, work))
+                if has(lines):
+                    small2 = shrink(lines, work, has)
+                    tl = [(x, y) for x, y in diff_lines(small2, work) if x.split(" ", 1)[0] in ptags or y.split(" ", 1)[0] in ptags]
+                    if tl:
+                        small = small2
+                        dd = [(cid, 0, tl[0][0], tl[0][1])]
             sp = os.path.join(work, "dis-%d.script" % seen)
             write_script(sp, [(cid, small)])
             of, _, ok_ = run_oracle(prop, [sp], seed, tier, work)
@@ -776,7 +889,8 @@ def check_property(prop, tier, seed, replay=None):
                    "shrunk_difference": [{"line": x[1], "model": x[2], "implementation": x[3]} for x in dd[:1]],
                    "oracle_failures": [{"kind": x[1], "detail": x[2]} for x in (of + of_full)[:5]],
                    "how_to_replay": "./check %s --replay %s" % (prop, rp)}
-            decided = P.PROPS[prop].get("model_decides", False)
+            decided = P.PROPS[prop].get("model_decides", False) and attributable(prop, small, dd or [(cid, k, a, b)])
+            doc["attributed_to_property"] = bool(decided)
             if of or of_full:
                 doc["verdict"] = "the implementation-level oracle fails on this input"
                 suffix = ""
